@@ -10,8 +10,17 @@ import SoyVerif.Model.Ast
 namespace SoyVerif.Model.Printer
 open SoyVerif SoyVerif.Model
 
-/-- decimal digits of a natural number -/
-def natDigits (n : Nat) : Bytes := (toString n).toUTF8.toList
+/-- digits of `n`, most significant first, in front of `acc` (the fuel bounds the number of digits) -/
+def natDigitsAux : Nat → Nat → Bytes → Bytes
+  | 0, _, acc => acc
+  | fuel + 1, n, acc =>
+    if n < 10 then UInt8.ofNat (48 + n) :: acc
+    else natDigitsAux fuel (n / 10) (UInt8.ofNat (48 + n % 10) :: acc)
+
+/-- decimal digits of a natural number (`0` ↦ "0"); structural on a fuel so that the kernel
+    can compute it and `Lemmas/ParserLit.lean` can prove that `parseInt10` reads it back
+    (extensionally `(toString n).toUTF8.toList`; tied by the C17 correspondence) -/
+def natDigits (n : Nat) : Bytes := natDigitsAux (n + 1) n []
 
 /-- strconv.FormatInt(v, 10) / strconv.Itoa -/
 def fmtInt (v : Int) : Bytes :=
